@@ -10,7 +10,9 @@ from util import call, quiet
 REQUIRED_THEOREMS = ['Usid.C10.flatten_of_reshape', 'Usid.C10.reshape_of_flatten', 'Usid.C10.flatten_reads_coordinates',
                      'Usid.C10.flatten_pos_only', 'Usid.C10.flatten_spec_only',
                      'Usid.C10.flatten_squeezed_pos', 'Usid.C10.flatten_squeezed_spec',
-                     'Usid.C10.incompatible_raises', 'Usid.C10.rank_mismatch_raises', 'Usid.C10.result_shape']
+                     'Usid.C10.incompatible_raises', 'Usid.C10.rank_mismatch_raises', 'Usid.C10.result_shape',
+                     'Usid.C10.one_sided_pos_size', 'Usid.C10.one_sided_spec_size',
+                     'Usid.C10.one_sided_pos_incompatible_raises', 'Usid.C10.one_sided_spec_incompatible_raises']
 RULE = ('[also: main dtypes f8/f4/i4/c16/compound, chunked main, multi-chunk dask arrays, the lazily built N-D form, mixed containers for the two index matrices, verbose=True; a one-sided request must SUCCEED when every missing size is >= 2] generator datasets (1-3 dimensions per side, sizes 1-4, every storage permutation; a share with a single '
         'position or a single spectroscopic point); the file-order N-D form is flattened with the dataset\'s own index '
         'matrices passed as h5py / numpy / dask, with size-1 axes kept or squeezed, with only one matrix, and with '
